@@ -1,7 +1,7 @@
 (* C05 - Converting to the next variant keeps, adds and returns the right values.   PARTIAL (as C04). *)
 From Coq Require Import List NArith Permutation.
 From Truc.Model Require Import Layout Builder Ir Gen Exec Ops.
-From Truc.Proofs Require Import ExecP Holds.
+From Truc.Proofs Require Import ExecP Holds Life Chain.
 From Truc.Current Require Runtime.
 Import ListNotations.
 
@@ -35,6 +35,37 @@ Theorem C05 : forall v prev uninit and_out vals pvals b,
 Proof. exact (conv_holds ds TI rt A cap RT P Q minus plus carried LP LQ PP PQ). Qed.
 End C05.
 Print Assumptions C05.
+
+(* the complete forms map "holds P" to "holds Q" (the shape later operations need): *)
+Theorem C05_holds : forall ds TI rt A cap, rt_ok rt = true -> forall P Q minus plus carried,
+  layout_ok ds TI A cap P -> layout_ok ds TI A cap Q ->
+  Permutation P (minus ++ carried) -> Permutation Q (plus ++ carried) ->
+  forall v prev and_out vals pvals b, holds ds TI cap A P vals b ->
+  exists b',
+    op_conv ds TI rt A cap v prev minus plus false and_out b pvals =
+      Ok (if and_out then OAndOut b' (map (fun i => (nm ds i, Some (vals i))) minus) else ORecord b',
+          if and_out then [] else droppable_of TI (rev (map (fun i => (nm ds i, (Some (vals i), ty ds i))) minus))) /\
+    holds ds TI cap A Q (merge vals pvals plus) b'.
+Proof. intros ds TI rt A cap RT. exact (conv_holds_full ds TI rt A cap RT). Qed.
+Print Assumptions C05_holds.
+
+(* the uninit forms: only the mandatory added fields are supplied; once each added field that may stay
+   uninitialised (plain data, C11) has been written through its mutable accessor - nothing is destroyed by
+   those writes - the record holds the whole next variant: supplied, written and carried-over values *)
+Theorem C05_uninit_then_fill : forall ds TI rt A cap, rt_ok rt = true -> forall P Q minus plus carried,
+  layout_ok ds TI A cap P -> layout_ok ds TI A cap Q ->
+  Permutation P (minus ++ carried) -> Permutation Q (plus ++ carried) ->
+  (forall i, In i plus -> un ds i = true -> dr ds TI i = false) ->
+  forall v prev and_out vals pvals f b, holds ds TI cap A P vals b ->
+  exists b' b'' vals',
+    op_conv ds TI rt A cap v prev minus plus true and_out b pvals =
+      Ok (if and_out then OAndOut b' (map (fun i => (nm ds i, Some (vals i))) minus) else ORecord b',
+          if and_out then [] else droppable_of TI (rev (map (fun i => (nm ds i, (Some (vals i), ty ds i))) minus))) /\
+    life ds TI rt b' (assign_all f (filter (un ds) plus)) = Ok (b'', []) /\
+    holds ds TI cap A Q vals' b'' /\
+    (forall i, In i Q -> vals' i = if mem i plus then (if un ds i then f i else pvals i) else vals i).
+Proof. intros ds TI rt A cap RT. exact (conv_uninit_then_fill ds TI rt A cap RT). Qed.
+Print Assumptions C05_uninit_then_fill.
 
 (* the lists the generator computes for two consecutive variants are of that shape *)
 Theorem C05_minus_plus : forall pv var m pl,
